@@ -17,6 +17,7 @@ func init() {
 		{Prop: "C03", Gen: gen.C03, Mon: oracle.C03},
 		{Prop: "C04", Gen: gen.C04, Mon: oracle.C04},
 		{Prop: "C19", Gen: func(t *rapid.T) *world.Scenario { return gen.C19(t, envInt("VERIF_C19_N", 25)) }, Mon: oracle.C19},
+		{Prop: "C05", Gen: func(t *rapid.T) *world.Scenario { return gen.C05(t, thorough()) }, Mon: oracle.C05},
 		{Prop: "C06", Gen: gen.C06, Mon: oracle.C06},
 		{Prop: "C07", Gen: gen.C07, Mon: oracle.C07},
 		{Prop: "C08", Gen: gen.C08, Mon: oracle.C08},
@@ -34,6 +35,7 @@ func TestC02(t *testing.T) { RunCheck(t, checks["C02"]) }
 func TestC03(t *testing.T) { RunCheck(t, checks["C03"]) }
 func TestC04(t *testing.T) { RunCheck(t, checks["C04"]) }
 func TestC19(t *testing.T) { RunCheck(t, checks["C19"]) }
+func TestC05(t *testing.T) { RunCheck(t, checks["C05"]) }
 func TestC06(t *testing.T) { RunCheck(t, checks["C06"]) }
 func TestC07(t *testing.T) { RunCheck(t, checks["C07"]) }
 func TestC08(t *testing.T) { RunCheck(t, checks["C08"]) }
